@@ -21,7 +21,7 @@ import (
 	"verif/vk"
 )
 
-const c12Rule = "streams = junk msg junk ... msg tail (messages 30 B - 20 kB serialised by fixwire, data fields with SOH and '10=' look-alikes inside the counted body, junk without a BeginString marker) or fragment soups of FIX delimiters; partitions = 1 byte, fixed sizes, generated split points aimed inside '8=', '9=', length digits, '10=' and checksum, chunks larger than the 4096-byte buffer, EOF delivered with data; non-trivial = >=2 messages and a split inside a tag/length/checksum, or a message larger than the buffer; distinct = distinct (stream, partition)"
+const c12Rule = "streams = junk msg junk ... msg tail (messages 30 B - 20 kB serialised by fixwire, data fields with SOH and '10=' look-alikes inside the counted body, junk without a BeginString marker, short or in runs sized around multiples of the 4096-byte buffer) or fragment soups of FIX delimiters; partitions = 1 byte, fixed sizes, generated split points aimed inside '8=', '9=', length digits, '10=' and checksum, chunks larger than the 4096-byte buffer, EOF delivered with data; non-trivial = >=2 messages and a split inside a tag/length/checksum, or a message larger than the buffer; distinct = distinct (stream, partition)"
 
 func c12() *stats.Collector {
 	c := stats.Get("C12")
@@ -133,6 +133,17 @@ func clip(b []byte) string {
 func genJunk(t *rapid.T, label string) []byte {
 	n := rapid.IntRange(0, 12).Draw(t, label+"-n")
 	b := rapid.SliceOfN(rapid.SampledFrom([]byte{'8', '=', 1, '9', '1', '0', 'x', '\n', '=', 1}), n, n).Draw(t, label)
+	if rapid.IntRange(0, 7).Draw(t, label+"-long") == 0 {
+		// a long run, sized around a multiple of the parser's buffer (4096): a short pattern tiled
+		total := rapid.SampledFrom([]int{4096, 8192, 12288}).Draw(t, label+"-around") + rapid.OneOf(rapid.IntRange(-3, 3), rapid.IntRange(-80, 80)).Draw(t, label+"-delta")
+		pat := append(append([]byte{}, b...), 'n')
+		long := make([]byte, 0, total)
+		for len(long) < total {
+			long = append(long, pat...)
+		}
+		b = long[:total]
+		c12().Class("long-junk")
+	}
 	// junk must not contain a BeginString marker, nor end in '8' right before the next message's "8="
 	b = bytes.ReplaceAll(b, []byte("8="), []byte("8x"))
 	if len(b) > 0 && b[len(b)-1] == '8' {
